@@ -404,6 +404,7 @@ fn op_fitc<F: Sc>(em: &mut Em, rng: &mut Rng) {
                     let sc: f64 = ww.iter().map(|v| v.abs()).sum::<f64>() * 12.0 + m.intercept().wd().abs() + 1.0;
                     let ok = pr.len() == pn.nrows() && pr.iter().zip(&want).all(|(a, b)| (a.wd() - b - m.intercept().wd()).abs() <= 1e-3 * F::REL * sc || !b.is_finite());
                     ctx.require(ok, "predict_is_xw_plus_b", class, || format!("predict={:?} but X.w+b={:?}+{}", pr.to_vec(), want, m.intercept()));
+                    counts.push("predicted".to_string());
                     out += &format!(" pred={}", list(pr.iter().copied(), shx));
                 }
                 out
@@ -411,7 +412,11 @@ fn op_fitc<F: Sc>(em: &mut Em, rng: &mut Rng) {
         }
     });
     for k in counts {
-        em.count(&format!("x:{}:{}", F::TY, k));
+        if k == "predicted" {
+            em.count("fitc:predicted");
+        } else {
+            em.count(&format!("x:{}:{}", F::TY, k));
+        }
     }
 }
 
@@ -442,7 +447,7 @@ fn name32<F: Sc>(op: &str) -> String {
     }
 }
 
-/// with `l1 = 0`: is the returned point stationary to working precision (`‖XᵀR − l2·W‖ ≤ thr·‖R‖·max‖x_j‖`)?
+/// with `l1 = 0`: is the returned point stationary to working precision (`‖XᵀR − l2·W‖ ≤ thr·‖Y‖·max‖x_j‖`, `Y` the centred target)?
 /// Then whether the descent hit `XᵀR − l2·W = 0` exactly (and broke) hangs on the last bits: gap and sweep
 /// count are not compared (the driver applies the same criterion), everything else is.
 fn stationary_l1_0<F: Sc>(x: &Array2<f64>, yc: &Array2<f64>, w: &Array2<f64>, l1r: f64, pen: f64) -> bool {
@@ -452,10 +457,10 @@ fn stationary_l1_0<F: Sc>(x: &Array2<f64>, yc: &Array2<f64>, w: &Array2<f64>, l1
     }
     let r = yc - &x.dot(w);
     let dn = dual_norm_mtl(x, w, &r, (1.0 - l1r) * pen * nf);
-    let rn: f64 = r.iter().map(|v| v * v).sum();
+    let yn: f64 = yc.iter().map(|v| v * v).sum();
     let xn = (0..x.ncols()).map(|j| dot(&col(x, j), &col(x, j))).fold(0.0, f64::max);
     let thr = if F::TY == "f64" { 1e-9 } else { 1e-4 };
-    dn / (rn.sqrt() * xn.sqrt() + 1e-300) <= thr
+    dn / (yn.sqrt() * xn.sqrt() + 1e-300) <= thr
 }
 fn gap_steps<F: Sc>(stat: bool, g: F, s: u32) -> String {
     if stat {
@@ -559,6 +564,7 @@ fn op_fitm<F: Sc>(em: &mut Em, rng: &mut Rng) {
                     let sc: f64 = w.iter().map(|v| v.wd().abs()).sum::<f64>() * 12.0 + b.iter().map(|v| v.wd().abs()).sum::<f64>() + 1.0;
                     let ok = pr.dim() == (pn.nrows(), t) && pr.indexed_iter().all(|((i, k), a)| (a.wd() - want[[i, k]] - b[k].wd()).abs() <= 1e-3 * F::REL * sc || !want[[i, k]].is_finite());
                     ctx.require(ok, "predict_is_xw_plus_b", class, || format!("predict={:?} but X.W={:?} b={:?}", pr, want, b.to_vec()));
+                    counts.push("predicted".to_string());
                     out += &format!(" pred={}", list2(pr.rows().into_iter().map(|r| r.to_vec()), shtx));
                 }
                 format!("{} {}", out, MARGIN1)
@@ -566,7 +572,11 @@ fn op_fitm<F: Sc>(em: &mut Em, rng: &mut Rng) {
         }
     });
     for k in counts {
-        em.count(&format!("x:{}:fitm:{}", F::TY, k));
+        if k == "predicted" {
+            em.count("fitm:predicted");
+        } else {
+            em.count(&format!("x:{}:fitm:{}", F::TY, k));
+        }
     }
 }
 
@@ -616,6 +626,7 @@ fn op_ols_x<F: Sc>(em: &mut Em, rng: &mut Rng) {
     let class = format!("ols:icpt={}", icpt as u8);
     let pnew: Array2<F> = new_rows(rng, p);
     let op = format!("#ols X={} y={} icpt={} form={}{}{}", rows_hx(x.view()), vec_hx(&y), icpt as u8, form, xl.tok(), ty_tok::<F>());
+    let mut fitted = false;
     em.case_valid(op, &class, |ctx| {
         let lr = if form == 3 && icpt { LinearRegression::default() } else { LinearRegression::new().with_intercept(icpt) };
         let res = match form {
@@ -627,6 +638,7 @@ fn op_ols_x<F: Sc>(em: &mut Em, rng: &mut Rng) {
         match res {
             Err(e) => ctx.fail("fit_ok", &class, format!("{:?}", e)),
             Ok(m) => {
+                fitted = true;
                 let w = wide1(m.params()).to_vec();
                 let b = m.intercept().wd();
                 ctx.require(w.len() == p && w.iter().all(|v| v.is_finite()) && b.is_finite(), "finite", &class, || format!("w={:?} b={}", w, b));
@@ -673,6 +685,9 @@ fn op_ols_x<F: Sc>(em: &mut Em, rng: &mut Rng) {
         }
         "-".to_string()
     });
+    if fitted {
+        em.count(&format!("olsx:{}:fitted", F::TY));
+    }
 }
 
 pub(crate) fn run(em: &mut Em, rng: &mut Rng) {
